@@ -424,11 +424,14 @@ package node
 // nodeWrites: requests that change data: Field(Write), Child(New|Delete), Next(New|Delete)
 // writesAfterFail: such requests issued when a callback had already failed
 
+// begin/end notifications are addressed to the node of the selection named in the request
 //@ interface Node.BeginEdit(r NodeRequest) error
+//@   requires r.Selection != nil && r.Selection.Node == self
 //@   assigns open, failed
 //@   ensures result == nil ==> open == old(open) + 1 && failed == old(failed)
 //@   ensures result != nil ==> open == old(open) && failed
 //@ interface Node.EndEdit(r NodeRequest) error
+//@   requires r.Selection != nil && r.Selection.Node == self
 //@   assigns open, failed
 //@   ensures open == old(open) - 1
 //@   ensures failed == (old(failed) || result != nil)
